@@ -229,8 +229,17 @@ CHECKS["C19"] = dict(
     parts=[rapid_part("leaks", "compose", "TestC19", 400, 8000, qshards=8, replay_test="TestC19Replay", replay_reps=3)],
 )
 
+CHECKS["C03"] = dict(
+    technique="property-based testing (rapid) over completion schedules: generated release orders of gated node bodies and generated yields at add-only hook points (build tag verif) of the task manager; oracles = reference model + metamorphic (any completion order gives the identity-order result) + history invariants over hook events",
+    level_text="(a) white box: the task manager is driven directly (needAll and eager) with 1-3 batches of 1-8 tasks (gated, failing, panicking, with pre/post-processors), the gates opened in a generated order and 0-3 yields injected at each of nine hook points; history invariants: each task collected exactly once and only after its body returned, with its own output/error; waitAll returns exactly the outstanding set; num/list/channel drained at the end; per task submit -> returned -> pushed -> handoff -> received each once; synchronous-first-task rule; a stuck driver is detected by a no-progress watchdog. (b) black box: generated graphs of all kinds with parallel gated nodes are run under the identity release order and under generated permutations (with hook yields); output and executed (node,input) multiset equal the reference model and each other; the run returns only after every body feeding END returned; tasks of nodes feeding END are collected exactly once (hook events). Built with -race.",
+    level_note="The Go scheduler is not owned: interleavings inside the few instructions between hook points are sampled, not enumerated; the yields make the narrow windows likely, not certain.",
+    rule="rapid draws batches/task kinds/release picks/yield table (white box) or graph, input, paradigm, release picks, yield table (black box); non-trivial = overflow list held >= 2 finished tasks or >= 3 gated bodies outstanding at once (white box) / >= 2 bodies overlapped and the release order differs from identity (black box); distinct = FNV-1a of case JSON",
+    assumptions=GRAPH_ASSUME + ["hook points compiled in with -tags verif (add-only, MANIFEST.hooks)"],
+    parts=[rapid_part("taskmanager", "compose", "TestC03TaskManager", 3000, 40000, race=True, tags="verif", replay_test="TestC03TaskManagerReplay")],
+)
+
 # properties not claimed (with reason); everything else not in CHECKS is "not built yet"
 NOT_APPLICABLE = {}
 
 # commits in /repo that add build-tag guarded hooks
-HOOK_COMMITS = []
+HOOK_COMMITS = ["16307db"]
